@@ -274,4 +274,5 @@ def run(ctx: Ctx, tier: str) -> Result:
         res.fail(Finding("C16.ONCE", lp.qname, "<process_log>", lp.loc(), "log action renders the message %d times" % len(tmpl)))
     from .common import borrow
     borrow(ctx, res, tier, "c11", ("C11.BUILD",), "C16.BUILD", "exactly one action carries the log message: the snapshot action, or the log action when collection is off")
+    borrow(ctx, res, tier, "c10", ("C10.SCOPE", "C10.CONTAIN"), "C16.EVAL", "each field is evaluated in place, in the paused frame; a failing field yields its error text only")
     return res
